@@ -326,6 +326,12 @@ add("c02_wire_attack_cache", ["C02", "C06"], "quick",
     stubs=["Targets::get_cached_attack / cache_attack (three-line FxHashMap wrappers) -> recorders; Targets::generate_attack_targets -> arbitrary bitboard + argument record"],
     module=MG, est_s=60, native=[])
 
+add("c02_attack_store_wire", ["C02", "C06"], "quick",
+    "Targets::get_cached_attack / cache_attack executed for real: the map is read / written exactly once, under the key (colour asked about, position key) in both directions, the value stored is the value passed, a stored entry is returned as stored",
+    ["Targets::get_cached_attack", "Targets::cache_attack"], "symbolic colour, position key, value, hit / miss and replaced entry",
+    stubs=["std::collections::HashMap::get / insert -> recorders of key and value (hashbrown does not terminate in CBMC even with concrete keys: measured > 900 s); the map's own get-after-insert behaviour is assumed"],
+    module=MG, unwind=8, est_s=60, native=["map_get", "map_insert"])
+
 UFSTUB = "MagicTable::get_rook_targets / get_bishop_targets -> uninterpreted per-square functions R[sq], B[sq] (symbolic [u64;64], exact within one call because the occupancy argument is computed once); tied to the reference rays by C11 (M1-M3)"
 for col, cname in [("w", "White"), ("b", "Black")]:
     add(f"c01_pawn_attacks_{col}", ["C01", "C06"], "quick",
@@ -427,7 +433,7 @@ PROPS = {
         title="Move and attack queries do not depend on what the generator was asked before", jobs=16,
         technique=TECH + "; reduction: cache key = (position key, colour), so history-independence <=> key is a function of (placement, rights, ep) and separates neighbouring positions",
         level_text="Bounded model checking by reduction. Both generator caches are keyed by (position key, colour) and store a value that depends only on (placement, rights, ep, colour); the solver shows, on fully symbolic boards, that every board mutator and every move kind (apply and undo) toggles exactly the key constants of the features it changes -- for every draw of the tables (ghost-log harnesses) and on this build's real tables (per-mutator lemmas) -- and that single-feature edits always change the key. Thorough adds two symbolic 3-ply histories from the start position.",
-        level_note="Assumes: RepInv on the symbolic pre-state (C12 proves it inductive); genuine 64-bit collisions between non-neighbouring positions, the LRU's eviction policy and capacity are outside the claim; the three-line cache wrappers generate_moves/get_attack_targets are read, not executed (hashbrown/LRU with symbolic keys does not terminate in CBMC, measured). Trusted: Kani/CBMC/CaDiCaL, the reference rules in harness/files/src/verif_ref.rs.",
+        level_note="Assumes: RepInv on the symbolic pre-state (C12 proves it inductive); genuine 64-bit collisions between non-neighbouring positions, the LRU's eviction policy and capacity are outside the claim; the LRU's and the hash map's own store/lookup behaviour is assumed (lru / hashbrown do not terminate in CBMC, measured; their get / put / insert are recorder stand-ins in c02_wire_move_cache_*, c02_attack_store_wire). Trusted: Kani/CBMC/CaDiCaL, the reference rules in harness/files/src/verif_ref.rs.",
     ),
     "C03": dict(
         outside="moves that are not rules-shaped (apply's behaviour on garbage moves is not part of the property)",
